@@ -47,7 +47,13 @@ type Cfg struct {
 	LoopFirst   bool     `json:"loop_first"`  // the loop may move on while a download is still in flight
 	ListFaults  bool     `json:"list_faults"` // the initial listing may fail
 	NoopRemote  bool     `json:"noop_remote"` // instance r may re-publish its newest snapshot with unchanged content (once)
-	TwoRemotes  bool     `json:"two_remotes"` // two remote instances with disjoint keys; both snapshots may wait in the receiver at once
+	// Corrupt: "only" = the single blob of remote instance r is undecodable; "newest" = r's newest blob is
+	// undecodable, its older one is valid (C08)
+	Corrupt string `json:"corrupt"`
+	// ForceInterval: storage_force_snapshot_interval is enabled; "the interval elapses" is an environment answer (once)
+	ForceInterval bool `json:"force_interval"`
+	RetryCount    int  `json:"retry_count"` // storage_retry_count (default 3); with StoreFaults >= RetryCount a whole upload can fail
+	TwoRemotes    bool `json:"two_remotes"` // two remote instances with disjoint keys; both snapshots may wait in the receiver at once
 }
 
 var LoopHooks = []string{"sync.loopTop", "sync.beforeLoad", "load.beforeTxn", "load.afterTxn", "sync.afterLoad", "sync.beforeInfo", "sync.beforeSend", "send.beforeTxn", "send.afterTxn", "send.beforeStore", "send.afterStore", "sync.afterSendCheck", "sync.afterStartupCapture"}
@@ -80,6 +86,8 @@ type World struct {
 	remote2N         string
 	r2shown          bool
 	noopShown        bool
+	overdue          bool // the forced-snapshot interval elapses before the loop's next deadline check
+	forced           int
 	txnBeforeLoad    int64
 	emptyLoad        bool
 	visits           map[string]int
@@ -447,10 +455,28 @@ func Run(cfg Cfg, ctx *explore.Ctx) Result {
 		qn1, qd1, qn2, qd2 = buildRemotes("q")
 	}
 	verifhook.SetSkip(func(string) bool { return true })
-	verifhook.SetNow(func(site string, t time.Time) time.Time { return time.Unix(0, int64(w.now())) })
+	verifhook.SetNow(func(site string, t time.Time) time.Time {
+		if site == "sync.lastSnapshotTime" {
+			// the deadline of the periodic forced snapshot: real time unless the harness lets the interval elapse
+			w.mu.Lock()
+			defer w.mu.Unlock()
+			if w.overdue {
+				w.overdue = false
+				return t.Add(-1000 * time.Hour)
+			}
+			return t
+		}
+		return time.Unix(0, int64(w.now()))
+	})
 	opt := inst.Opt{Native: cfg.Native, Tweak: func(c *config.Config, lc *config.LMDB) {
 		c.OnlyOnce = cfg.OnlyOnce
 		c.StorageRetryCount = 3
+		if cfg.ForceInterval {
+			c.StorageForceSnapshotInterval = 100 * time.Hour
+		}
+		if cfg.RetryCount > 0 {
+			c.StorageRetryCount = cfg.RetryCount
+		}
 	}}
 	if cfg.Sweeper {
 		opt.Sweeper = &config.Sweeper{Enabled: true, RetentionDays: 1, Interval: 11 * time.Minute, FirstInterval: 11 * time.Minute, LockDuration: time.Second, ReleaseDuration: time.Second}
@@ -483,6 +509,13 @@ func Run(cfg Cfg, ctx *explore.Ctx) Result {
 	}
 	w.B.Put(n1, d1)
 	w.remote2, w.remote2N = d2, n2
+	switch cfg.Corrupt {
+	case "only":
+		w.B.Remove(n1)
+		w.B.Put(n2, []byte("\x1f\x8b this is not a snapshot"))
+	case "newest":
+		w.B.Put(n2, []byte("\x1f\x8b this is not a snapshot"))
+	}
 	w.monitor("setup")
 	w.B.AfterMutate = func(op, name string) { w.monitor(op + " " + name) }
 	if cfg.TwoRemotes {
@@ -590,8 +623,8 @@ func Run(cfg Cfg, ctx *explore.Ctx) Result {
 		w.viol("loop-never-goes-idle", fmt.Sprintf("no %d consecutive idle iterations within %d steps; stores=%d loads=%d", cfg.IdleIters, s.Steps, w.stores, w.loads))
 	}
 	// stores must be justified: start-up snapshot + one per application commit
-	if w.stores > 1+w.commits {
-		w.viol("c10:unjustified-upload", fmt.Sprintf("%d uploads for %d application commits (plus the start-up snapshot); commits at %v", w.stores, w.commits, w.commitAt))
+	if w.stores > 1+w.commits+w.forced {
+		w.viol("c10:unjustified-upload", fmt.Sprintf("%d uploads for %d application commits (plus the start-up snapshot, plus %d elapsed forced-snapshot intervals); commits at %v", w.stores, w.commits, w.forced, w.commitAt))
 	}
 	if outcome == "nothing-enabled" {
 		select {
@@ -627,7 +660,9 @@ func Run(cfg Cfg, ctx *explore.Ctx) Result {
 			// not earlier: the newest snapshot of every instance present at start-up has been merged
 			view := w.appView()
 			_, bTouched := w.touched["d/b"]
-			if (!bTouched && view["d"]["b"] != "rb") || view["e"]["ek"] != "ev" {
+			if cfg.Corrupt == "only" {
+				// nothing decodable of instance r exists: ending without it is right
+			} else if (!bTouched && view["d"]["b"] != "rb") || view["e"]["ek"] != "ev" {
 				w.viol("c16:run-once-ended-before-merging-all-instances", fmt.Sprintf("only_once: Sync returned after %d merges but the content of instance r's snapshot is not in the LMDB: %s", w.loads, world.PlainString(view)))
 			}
 		}
@@ -817,6 +852,17 @@ func (w *World) policy(appPoints map[string]bool) sched.Policy {
 					w.bucketVer++
 					w.idle = 0
 					w.mu.Unlock()
+				}}})
+			}
+			if cfg.ForceInterval && w.forced == 0 {
+				lp := loop
+				out = append(out, sched.Choice{Label: "force-snapshot-interval-elapses", Cost: 1, Act: &sched.Action{Do: func() {
+					w.mu.Lock()
+					w.forced++
+					w.overdue = true
+					w.idle = 0
+					w.mu.Unlock()
+					s.Release(lp, 0)
 				}}})
 			}
 			if cfg.NoopRemote && !w.noopShown {
